@@ -55,6 +55,8 @@ def rand_entry(r, p):
         eps = [["ep", 6, "fd00::%d" % (11 + p), 17, 4000]]
     else:
         eps = [ep(p), ["ep", 6, "fd00::%d" % (11 + p), 6, 4000], ep(p, 4002)]
+    if len(eps) > 1 and r.random() < 0.5:
+        eps.reverse()
     o2 = []
     if r.random() < 0.15:
         o2 = [r.choice([["cfg", [["key", "value"], ["flag", None]]], ["lb", 1, 2], ["unk", 0x77, "0011"]])]
